@@ -81,6 +81,7 @@ def decoder(P, which, pin_doc, slot):
     return dec
 
 def check(R, tier):
+    R.fallback_kinds = {'meta'}
     I = R.interp('tough'); install_world(I)
     nch = 2 if tier == 'thorough' else 1
     R.bounds.update({'chunks per file': f'0..{nch}', 'versions / lengths': 'any u64', 'delegation tree': 'depth <= 2, <= 2 roles per level'})
